@@ -115,6 +115,9 @@ def classify(raw, mnem, ops):
         f.add("AVX")
         if m in AVX2_ONLY:
             f.add("AVX2")
+        elif m in ("vbroadcastss", "vbroadcastsd") and "(" not in ops.split(",")[0]:
+            # AVX has only the memory-source form; the register-source form (ModRM.mod = 11b) came with AVX2
+            f.add("AVX2")
         elif has_ymm and m.startswith("vp") and m not in ("vptest", "vpermilps", "vpermilpd", "vperm2f128"):
             f.add("AVX2")
         elif has_ymm and m in ("vmovntdqa", "vmpsadbw"):
